@@ -412,6 +412,9 @@ class Runner:
                 if not os.path.exists(self.exe):
                     self.exe = self.ctx.harness("events_driver", "asan", self.defs)
             rc, out, err = vlib.run([self.exe], inp=text, timeout=60, env=env)
+        if rc == -999:
+            # a history takes milliseconds: a timeout is machine load, not an observation — once more, patiently
+            rc, out, err = vlib.run([self.exe], inp=text, timeout=600, env=env)
         lines = out.splitlines()
         crash = None
         if rc != 0 or not lines or lines[-1] != "end":
